@@ -74,6 +74,26 @@ def obligations(tier, seed):
                 body2 = body.replace(w.name, wa.name)
                 obs.append(Ob(id='C09.conv-as.%s' % tag, prop='C09', group='C09.%s_%s' % (s, t), prelude=prelude(s, t), wrappers=[wa], inputs=[(ct, 'x')],
                               body=body2, contract='same contract for coerce_as(...).in(...)', functions_under_contract=('au::QuantityPoint::coerce_as',)))
+    # ---- rep-changing point conversions: the affine arithmetic must run in the intermediate rep, not in the source rep
+    repc = [('C', 'mK', 'i32', 'i64'), ('mK', 'C', 'u32', 'i64'), ('K', 'C', 'u32', 'i64'), ('F', 'K', 'i16', 'i32'), ('C', 'K', 'i64', 'i32'), ('X1', 'X2', 'i32', 'i64'),
+            ('K', 'F', 'u16', 'i32'), ('C', 'F', 'i32', 'i64')]
+    if tier == 'thorough': repc += [('F', 'mK', 'i32', 'i64'), ('X3', 'C', 'u32', 'i64'), ('mK', 'K', 'i64', 'i16'), ('X2', 'K', 'i8', 'i32'), ('C', 'X1', 'u8', 'i64')]
+    for (sname, tname, r1, r2) in repc:
+        c1, c2 = G.ctype(r1), G.ctype(r2)
+        A, B, Dn = affine(sname, tname)
+        tag = '%s_%s_%s_%s' % (sname, tname, r1, r2)
+        w = Wrapper('w_ptrep_' + tag, c2, [(c1, 'x')], 'return au::make_quantity_point<%s>(x).coerce_in<%s>(%s{});' % (PT[sname]['ty'], c2, PT[tname]['ty']))
+        # every source value whose exact result fits the target rep; for 64-bit sources additionally |x| <= 10^9 (intermediate products)
+        bound = ' && x >= -1000000000 && x <= 1000000000' if r1 == 'i64' else ''
+        num = '((i128)x * %s + %s)' % (G.lit(A), G.lit(B))
+        body = '''
+  ASSUME(FITS(%s, %s / %s)%s);
+  %s r = %s(x);
+  CHECK((i128)r == %s / %s, "rep-changing-point-conversion-applies-the-exact-affine-map");
+''' % (r2, num, G.lit(Dn), bound, c2, w.name, num, G.lit(Dn))
+        obs.append(Ob(id='C09.convrep.%s' % tag, prop='C09', group='C09.rep.%s_%s' % (sname, tname), prelude=prelude(sname, tname), wrappers=[w], inputs=[(c1, 'x')], body=body,
+                      contract='forall %s x whose exact result fits %s%s: %s_pt(x).coerce_in<%s>(%s) == trunc((x*%d + %d) / %d); no UB:*' % (c1, c2, bound, sname, c2, tname, A, B, Dn),
+                      functions_under_contract=('au::QuantityPoint::coerce_in<NewRep>', 'au::QuantityPoint::in<NewRep>', 'au::detail::IntermediateRep')))
     # ---- two-point operations: comparisons, point - point, point +/- quantity
     pp = [('C', 'K'), ('F', 'C'), ('K', 'mK'), ('X1', 'X2'), ('F', 'X3')] if tier == 'quick' else [(s, t) for s in names for t in names if s < t]
     fine_ty = 'VP_FINE'
